@@ -20,7 +20,7 @@ pub fn batches(prop: &str) -> Vec<Batch> {
         "C01" => vec![b("A", "mixed", 2500, 120_000), b("A", "concurrent", 1000, 60_000), b("A", "restart", 500, 60_000), b("A", "crash", 300, 30_000), b("A", "poolchange", 1000, 60_000)],
         "C02" => vec![b("A", "mixed", 1500, 60_000), b("A", "drain", 400, 20_000), b("A", "drain-large", 8, 400)],
         "C09" => vec![b("A", "mixed", 3000, 200_000), b("A", "roam", 1000, 60_000), b("A", "poolchange", 2000, 100_000)],
-        "C10" => vec![b("A", "mixed", 2500, 150_000), b("A", "rhythm", 800, 60_000)],
+        "C10" => vec![b("A", "mixed", 2500, 150_000), b("A", "rhythm", 800, 60_000), b("A", "growth", 1200, 80_000)],
         "C12" => vec![b("A", "wire", 2500, 150_000), b("A", "mixed", 800, 50_000)],
         "C13" => vec![b("A", "mixed", 3000, 200_000), b("A", "restart", 500, 40_000)],
         "C20" => vec![b("A", "listing", 2000, 100_000)],
@@ -35,6 +35,45 @@ pub fn batches(prop: &str) -> Vec<Batch> {
         "C15" => vec![b("B", "routes", 3000, 160_000), b("B", "basic", 1000, 40_000)],
         "C16" => vec![b("B", "flood", 1200, 60_000), b("B", "cookie", 1200, 60_000)],
         _ => vec![],
+    }
+}
+
+/// Rare conditions each check is expected to reach; they are listed in the evidence
+/// with a count of zero when a batch never got there.
+pub fn expected_probes(prop: &str) -> &'static [&'static str] {
+    match prop {
+        "C01" => &["C01.expired_lease_reissued_to_other", "C09.client_holds_several_leases", "C18.recovered_after_kill", "config.swapped_live", "clock.backward_step", "restart.clean"],
+        "C02" => &["C02.pool_drained", "C02.last_host_address_issued", "C02.reserved_host_served", "C02.nested_policy_tree", "C02.request_names_reserved_address", "C09.refused_no_address"],
+        "C09" => &["C09.client_holds_several_leases", "C09.refused_no_address", "config.swapped_live", "clock.backward_step"],
+        "C10" => &["C10.clamped_at_max", "C10.clamped_at_min", "clock.backward_step", "restart.clean"],
+        "C12" => &["C12.broadcast_bit_set", "C12.other_flag_bits_set", "C12.tracer_option_over_255", "C12.request_with_split_options"],
+        "C13" => &["C13.foreign_server_id", "C13.decline_or_release_for_held_address", "restart.clean"],
+        "C18" => &["C18.crash_during_boot", "C18.recovered_after_kill", "C18.image_v0", "C18.image_v0_without_version_row", "C18.image_v0_without_version_table", "C18.image_newer_schema", "C18.newer_schema_refused", "C18.restart_pair_compared", "C18.crash_after_write:leases.sqlite", "C18.crash_after_sync:leases.sqlite", "C18.crash_after_write:leases.sqlite-journal", "C18.crash_after_delete:leases.sqlite-journal"],
+        "C20" => &["C20.listing_of_empty_store", "C20.gauges_of_empty_store", "C20.all_leases_expired", "C20.scrape_in_the_second_of_an_expiry", "C20.scrape_one_second_before_an_expiry", "C20.scrape_one_second_after_an_expiry", "C20.gauges_judged_exactly_at_an_expiry_second"],
+        "C05" => &["C05.liveness_probe_after_hostile_input", "C05.router_solicitation_probe", "C05.unsolicited_advertisement_seen"],
+        "C08" => &["C08.dns_query_that_must_be_refused", "C08.http_over_unix_socket", "C08.http_request_that_must_be_granted", "C08.http_request_that_must_be_refused", "C08.ipv4_client_on_dual_stack_listener"],
+        "C03" => &["C03.complete_relayed_answer", "C06.served_from_cache", "C04.truncated_response"],
+        "C04" => &["C04.truncated_response", "C14.response_over_16k", "C14.many_compression_pointers"],
+        "C06" => &["C06.served_from_cache", "C06.hit_exactly_at_ttl", "C06.query_aimed_at_ttl_boundary", "C06.near_miss_key_in_same_run", "C06.repeated_key_resolved_upstream"],
+        "C07" => &["C07.several_responses_seen", "C07.servfail_after_fault", "C07.query_to_secondary_local_address", "C07.response_sent_from_ipv4_only_listener", "in.udp.no_socket"],
+        "C14" => &["C14.response_over_16k", "C14.many_compression_pointers"],
+        "C15" => &["C15.forge_nxdomain_route", "C15.forward_route", "C15.no_route", "C15.no_recursion_desired_on_forward_route"],
+        "C16" => &[
+            "C16.flood_of_100_or_more",
+            "C16.quiet_source_probe",
+            "C16.server_cookie_learnt",
+            "C16.refused_sent_to_cookie_holder",
+            "C16.invalid_cookie_flood_partly_unanswered",
+            "C16.cookie_case.valid",
+            "C16.cookie_case.other_client_address",
+            "C16.cookie_case.other_server_address",
+            "C16.cookie_case.other_client_cookie",
+            "C16.cookie_case.forged",
+            "C16.cookie_case.two_key_rotations_old",
+            "C16.cookie_case.valid_prefix_only",
+            "C16.cookie_case.valid_plus_extra_octets",
+        ],
+        _ => &[],
     }
 }
 
@@ -260,6 +299,9 @@ pub fn run_check(prop: &str, tier: &str, base_seed: u64, verif_dir: &str) -> i32
 
     let wall = t_start.elapsed().as_secs_f64();
     let level = if prop == "C18" { "fault_enumeration" } else { "exploration" };
+    for pn in expected_probes(prop) {
+        sum.probes.entry(pn.to_string()).or_insert(0);
+    }
     let zero_probes: Vec<&String> = sum.probes.iter().filter(|(_, v)| **v == 0).map(|(k, _)| k).collect();
     let ev = serde_json::json!({
         "property_id": prop,
